@@ -260,6 +260,77 @@ pub fn run(tier: &Tier) -> i32 {
             }
         }
     });
+    // identifiers: every name of up to 3 lower-case letters, the same in upper case, and a dictionary of
+    // mnemonic-like words, used as code label (jump target), as procedure name (call target) and as data
+    // label: whatever name the assembler accepts, the interpreter must be able to read back
+    let names_checked = AtomicU64::new(0);
+    {
+        let mut names: Vec<String> = Vec::new();
+        let az: Vec<char> = ('a'..='z').collect();
+        for a in az.iter() {
+            names.push(a.to_string());
+            for b in az.iter() {
+                names.push(format!("{}{}", a, b));
+                for d in az.iter() {
+                    names.push(format!("{}{}{}", a, b, d));
+                }
+            }
+        }
+        for w in [
+            "halt", "stop", "exit", "quit", "end", "done", "wait", "lock", "into", "iret", "retf", "retn", "enter", "leave", "pusha", "popa", "movsb", "movsw", "stosb", "lodsb", "cmpsb", "scasb", "next", "print", "flags",
+            "reg", "mem", "start", "main", "loop1", "word", "byte", "offset", "short", "near", "far", "ptr", "dup", "equ", "org", "segment", "ends", "proc", "endp", "macro", "endm", "def", "set", "data", "code", "stack",
+            "nop1", "hlt1", "al1", "ax_", "_ax", "_", "__", "a1", "x86", "int3", "jmpq", "callf", "syscall", "cpuid", "bswap", "setz", "cmovz", "repx", "lea1", "les", "lds", "in", "out", "esc", "aax", "salc", "xlatb",
+        ] {
+            names.push(w.to_string());
+        }
+        let upper: Vec<String> = names.iter().map(|n| n.to_ascii_uppercase()).collect();
+        names.extend(upper);
+        names.sort();
+        names.dedup();
+        names.par_chunks(256).for_each(|ch| {
+            with_worker(|wk| {
+                for name in ch {
+                    for kind in 0..3 {
+                        let src = match kind {
+                            0 => format!("start:\njmp {}\nstc\n{}:\nclc\n", name, name),
+                            1 => format!("def {} {{\nstc\n}}\nstart:\ncall {}\n", name, name),
+                            _ => format!("{}: dw 7\nstart:\nmov ax, word {}\ninc byte {}\nmov bx, offset {}\n", name, name, name, name),
+                        };
+                        let asm = match assemble(&src) {
+                            Ok(a) => a,
+                            Err(_) => continue, // reserved word or otherwise refused: fine
+                        };
+                        if asm.driver_accepts().is_err() {
+                            continue;
+                        }
+                        names_checked.fetch_add(1, Ordering::Relaxed);
+                        let vm = &mut wk.bench.vm;
+                        let mut ictx = asm.ictx();
+                        ictx.call_stack.push(0);
+                        for (k, line) in asm.code.iter().enumerate() {
+                            let e = wk.m.exec(k, vm, &mut ictx, line);
+                            lines_checked.fetch_add(1, Ordering::Relaxed);
+                            if let Exec::Err(m) = &e {
+                                rep.report(Viol {
+                                    site: format!("identifier as {}", ["code label", "procedure name", "data label"][kind]),
+                                    field: "interpreter-rejects".into(),
+                                    vars: vec![],
+                                    got_val: None,
+                                    expected: "every emitted code line is accepted by the interpreter".into(),
+                                    got: format!("name {:?}, line {:?}: {}", name, line, m),
+                                    case: json!({"src": src, "line": line, "idx": k}),
+                                    weight: name.len() as u64,
+                                });
+                            }
+                        }
+                        vm.mem[0] = 0;
+                        vm.mem[1] = 0;
+                    }
+                }
+                wk.bench.hard_reset();
+            })
+        });
+    }
     // print forms through the binary (the print parser lives there): all forms, radices, both cases
     ensure_bin();
     let mut print_srcs: Vec<String> = Vec::new();
@@ -373,8 +444,8 @@ pub fn run(tier: &Tier) -> i32 {
     c.states.fetch_add(accepted.load(Ordering::Relaxed), Ordering::Relaxed);
     let mut cov = Coverage::default();
     cov.exhaustive = true;
-    cov.rule = "the complete shape catalog transcribed from syntax.md (every mnemonic and synonym x every operand form x 17 address forms x 5 segment choices x register choices) in lower and upper case, each as a minimal program: if the real Preprocessor accepts it, every emitted data line goes to the real DataParser and every emitted code line to the real Interpreter (context of the same program, executable state: caller on the call stack, non-zero divisors); any Err downstream is the violation; a documented shape the assembler rejects is reported as doc-shape-rejected. Every shape with an immediate constant or shift count is repeated with the constant at the boundaries of its class (0, largest unsigned, sign bit, -1, most negative; counts 0..255 lattice; displacements and direct addresses at 0, +-127/128/255/256, 32767/32768, 65535, -32768): the assembler may refuse, but what it accepts must run. All data directive forms in both cases; print statements with constants at the edges of the memory space and DS-relative statements under DS near the top of memory, one per program; strings with characters outside printable ASCII (may be refused, must load if accepted); all print forms x 4 radices x both cases through the CLI binary (no 'Internal Error', one output section per print)".into();
-    cov.bounds = json!({"catalog_shapes": cat.len(), "cases": 2, "data_forms": dcat.len(), "print_programs": print_srcs.len(), "print_edge_programs": edge.len(), "immediate_boundary_variants": n_variants, "accepted_programs": accepted.load(Ordering::Relaxed), "downstream_lines_checked": lines_checked.load(Ordering::Relaxed), "tier": tier.name()});
+    cov.rule = "the complete shape catalog transcribed from syntax.md (every mnemonic and synonym x every operand form x 17 address forms x 5 segment choices x register choices) in lower and upper case, each as a minimal program: if the real Preprocessor accepts it, every emitted data line goes to the real DataParser and every emitted code line to the real Interpreter (context of the same program, executable state: caller on the call stack, non-zero divisors); any Err downstream is the violation; a documented shape the assembler rejects is reported as doc-shape-rejected. Every shape with an immediate constant or shift count is repeated with the constant at the boundaries of its class (0, largest unsigned, sign bit, -1, most negative; counts 0..255 lattice; displacements and direct addresses at 0, +-127/128/255/256, 32767/32768, 65535, -32768): the assembler may refuse, but what it accepts must run. Identifiers: every name of up to 3 letters in lower and upper case plus a dictionary of mnemonic-like words, as jump target, procedure name and data label: every name the assembler accepts must be readable by the interpreter. All data directive forms in both cases; print statements with constants at the edges of the memory space and DS-relative statements under DS near the top of memory, one per program; strings with characters outside printable ASCII (may be refused, must load if accepted); all print forms x 4 radices x both cases through the CLI binary (no 'Internal Error', one output section per print)".into();
+    cov.bounds = json!({"catalog_shapes": cat.len(), "cases": 2, "data_forms": dcat.len(), "print_programs": print_srcs.len(), "identifier_programs_accepted_and_run": names_checked.load(Ordering::Relaxed), "print_edge_programs": edge.len(), "immediate_boundary_variants": n_variants, "accepted_programs": accepted.load(Ordering::Relaxed), "downstream_lines_checked": lines_checked.load(Ordering::Relaxed), "tier": tier.name()});
     cov.assumptions = common_assumptions();
     cov.cli_runs = CLI_RUNS.load(Ordering::Relaxed);
     cov.distinct_nontrivial = accepted.load(Ordering::Relaxed);
